@@ -133,6 +133,11 @@ def rename_maps(cfg: Config) -> dict[str, list[dict[str, str]]]:
         "swap_two_parameters": [{p1.name: p2.name, p2.name: p1.name}],
         "all_parameters": [{s.name: f"par_{i}" for i, s in enumerate(used)}],  # every parameter of the expression
         "parameter_and_kinematic_variable_injective": [{p1.name: "renamed_1", kin[0].name: "renamed_kinematic_variable"}],
+        # new names of unusual shape (the sorted mappings of the model compare names fragment by fragment): leading digit, sign + digit,
+        # digits separated by a sign only, digits only, non-ASCII
+        "kinematic_variable_to_name_with_leading_digit": [{kin[0].name: "2pi_mass"}],
+        "kinematic_variables_to_signed_and_numeric_names": [{kin[0].name: "-1x", kin[-1].name: "a1+2b"} if len(kin) > 1 else {kin[0].name: "-1x"}],
+        "parameter_to_digits_only_and_kinematic_variable_to_unicode": [{p1.name: "12", kin[0].name: "\u03b8_\u2081"}],
     }
     inner = sorted({x for v in model.kinematic_variables.values() for x in v.free_symbols}, key=lambda x: x.name)
     momenta = [x for x in inner if x not in model.kinematic_variables]
